@@ -172,7 +172,11 @@ func (env *SpecEnv) quant(x *Quant) *Val {
 		}
 		sortS = vc.sortOf(t)
 		env.bound[x.Var] = &Val{T: q(vname), Typ: t}
-		guard = vc.rangeFact(q(vname), t, 0)
+		// only integer ranges are used as guards: well-formedness facts of slices, strings and
+		// structs are not available for spec-evaluated terms and would block instantiation
+		if _, _, isInt := intRange(t); isInt {
+			guard = vc.rangeFact(q(vname), t, 0)
+		}
 	}
 	if env.qvars == nil {
 		env.qvars = map[string]bool{}
@@ -346,6 +350,9 @@ func (env *SpecEnv) tryLookup(name string) (*Val, bool) {
 		if env.fr.c != nil {
 			for _, ac := range env.fr.c.AtCalls {
 				if ac.Kind == "let" && ac.Let == name {
+					if proto, ok := env.fr.vc.letTypes[name]; ok {
+						return &Val{T: env.fr.vc.S.FreshConst("unbound."+name, env.fr.vc.sortOfVal(proto)), Typ: proto.Typ}, true
+					}
 					return &Val{T: env.fr.vc.S.FreshConst("unbound."+name, "Bool"), Typ: types.Typ[types.Bool]}, true
 				}
 			}
@@ -510,8 +517,11 @@ func (env *SpecEnv) index(v, i *Val) *Val {
 	case *types.Basic:
 		return &Val{T: "(str-at " + vc.term(v) + " " + it + ")", Typ: types.Typ[types.Byte]}
 	case *types.Map:
-		_, vn := vc.mapNames(t)
-		return &Val{T: sel(sel(h.Get(vn), vc.term(v)), it), Typ: t.Elem()}
+		// Go semantics: a missing key yields the zero value
+		d, vn := vc.mapNames(t)
+		m := vc.term(v)
+		present := and(not(eq(m, "0")), sel(sel(h.Get(d), m), it))
+		return &Val{T: ite(present, sel(sel(h.Get(vn), m), it), vc.zeroOf(t.Elem())), Typ: t.Elem()}
 	case *types.Pointer:
 		if arr, ok := t.Elem().Underlying().(*types.Array); ok {
 			p := vc.ptrOf(v)
@@ -699,6 +709,32 @@ func (env *SpecEnv) call(x *CallE) *Val {
 		argn(2)
 		a, c := vc.term(env.eval(x.Args[0])), vc.term(env.eval(x.Args[1]))
 		return boolVal(fmt.Sprintf("(exists ((i Int)) (and (<= 0 i) (< i (str-len %s)) (= (str-at %s i) %s)))", a, a, c))
+	case "visited":
+		// visited(k): key k has already been produced by the map range loop this invariant belongs to
+		argn(1)
+		if env.fr == nil || env.block == nil {
+			env.fail("visited() is only meaningful in a loop invariant")
+		}
+		var nx *ssa.Next
+		for blk := env.block; blk != nil && nx == nil; blk = blk.Idom() {
+			for _, in := range blk.Instrs {
+				if n, ok := in.(*ssa.Next); ok && !n.IsString {
+					nx = n
+					break
+				}
+			}
+			break
+		}
+		if nx == nil {
+			env.fail("visited(): no map range in this loop header")
+		}
+		it := env.fr.val(nx.Iter)
+		if len(it.Bind) != 1 {
+			env.fail("visited(): iterator without visited set")
+		}
+		mt := it.Typ.Underlying().(*types.Map)
+		gv := "GV|" + vc.sortOf(mt.Key())
+		return boolVal(sel(sel(env.curHeap().Get(gv), it.Bind[0].T), vc.term(env.eval(x.Args[0]))))
 	case "lower":
 		argn(1)
 		vc.needStrLower()
